@@ -45,7 +45,15 @@ REQUIRED = ["CifModel.C12_clean", "CifModel.C12_first_report_is_policy_free", "C
             "CifModel.C12_defective_unit_multiline", "CifModel.C12_disallowed_char", "CifModel.C12_invalid_char_trail",
             "CifModel.C12_invalid_char_lead", "CifModel.C12_die_is_first",
             "CifModel.C12_reserved_word_scan", "CifModel.C12_reserved_word_nextTok", "CifModel.C12_reserved_word",
-            "CifModel.C12_reserved_word_value_position", "CifModel.C12_reserved_word_instance"]
+            "CifModel.C12_reserved_word_value_position", "CifModel.C12_reserved_word_instance",
+            "CifModel.C12_unexpected_delim_at", "CifModel.C12_unexpected_term_at", "CifModel.C12_missing_delim_list_at",
+            "CifModel.C12_missing_delim_table_at", "CifModel.C12_table_missing_value_at", "CifModel.C12_misquoted_key_at",
+            "CifModel.C12_missing_key_at", "CifModel.C12_missing_key_word_at", "CifModel.C12_null_key_at",
+            "CifModel.C12_unquoted_key_at", "CifModel.C12_null_key_word_at", "CifModel.C12_frame_unterminated_at",
+            "CifModel.C12_frame_not_allowed_at", "CifModel.C12_null_loop_at", "CifModel.C12_invalid_itemname_at",
+            "CifModel.C12_invalid_framecode_at", "CifModel.C12_dup_framecode_at", "CifModel.C12_invalid_blockcode_at",
+            "CifModel.C12_dup_blockcode_at", "CifModel.C12_eof_in_frame_at", "CifModel.C12_no_frame_term_at",
+            "CifModel.C12_frame_nesting_depth_at"]
 GEN = ["ErrCodes", "CharClass", "ParseConsts"]
 FAMILIES = ["defect"]
 TRUSTED_BASE = [
